@@ -2704,6 +2704,15 @@ namespace awkward {
 
           I format = ~bytecode & READ_MASK;
 
+          if (num_items > (kMaxInt64 >> 4)  &&  format != READ_VARINT  &&
+              format != READ_ZIGZAG  &&  format != READ_NBIT) {
+            // fixed-width items are read in one piece of num_items * sizeof(item)
+            // bytes: a count whose size does not fit 64 bits would wrap around
+            // to a small (or negative) number of bytes
+            current_error_ = util::ForthError::read_beyond;
+            return;
+          }
+
           if (format == READ_VARINT) {
             ForthInputBuffer* input = current_inputs_[(IndexTypeOf<int64_t>)in_num].get();
             ForthOutputBuffer* output = nullptr;
